@@ -1,5 +1,6 @@
 (* C03 - model of prompt_toolkit/input/vt100_parser.py (Vt100Parser) as it is
-   written: the generator coroutine [_input_parser_generator] becomes a state
+   written (at /repo HEAD, i.e. with fix e3d939f): the generator coroutine
+   [_input_parser_generator] becomes a state
    machine on the local [prefix]; one activation of the coroutine (from one
    [yield] to the next) is [process].  Definitions only; proofs are in
    Proofs/C03_*.v.  Strings are lists of code points.
@@ -204,8 +205,9 @@ Definition no_match_step (st : pstate) : pstate :=
        end.
 
 (* One activation of the coroutine after [c = yield] has updated prefix/flush:
-   the body of "while True" repeated while retry is set.  [flush] is False on
-   every retry ("flush = False" is the first statement of the loop body). *)
+   the body of "while True" repeated while retry is set.  Since the fix
+   e3d939f ("flush = False" moved next to the yield) the flush flag is kept
+   across the retries of one activation. *)
 Fixpoint process (fuel : nat) (flush : bool) (st : pstate) : pstate :=
   match prefix st with
   | [] => st
@@ -216,7 +218,7 @@ Fixpoint process (fuel : nat) (flush : bool) (st : pstate) : pstate :=
           if flush || negb (is_prefix_longer (prefix st)) then
             match get_match (prefix st) with
             | Some ks => set_prefix [] (call_handler ks (prefix st) st)
-            | None => process f false (no_match_step st)
+            | None => process f flush (no_match_step st)
             end
           else st
       end
@@ -227,8 +229,10 @@ Definition send_char (c : Z) (st : pstate) : pstate :=
 Definition flush (st : pstate) : pstate :=
   process (length (prefix st)) true st.
 
-(* The same with the flush flag kept across retries: fixes/C03-flush-retry.patch *)
-Fixpoint process_fixed (fuel : nat) (flush : bool) (st : pstate) : pstate :=
+(* The coroutine as it stood at the pinned commit: "flush = False" was the first
+   statement of the loop body, so every retry ran as a non-flush pass
+   (finding C03-F1 / DESIGN F2, repaired by e3d939f). *)
+Fixpoint process_pinned (fuel : nat) (flush : bool) (st : pstate) : pstate :=
   match prefix st with
   | [] => st
   | _ :: _ =>
@@ -238,13 +242,13 @@ Fixpoint process_fixed (fuel : nat) (flush : bool) (st : pstate) : pstate :=
           if flush || negb (is_prefix_longer (prefix st)) then
             match get_match (prefix st) with
             | Some ks => set_prefix [] (call_handler ks (prefix st) st)
-            | None => process_fixed f flush (no_match_step st)
+            | None => process_pinned f false (no_match_step st)
             end
           else st
       end
   end.
-Definition flush_fixed (st : pstate) : pstate :=
-  process_fixed (length (prefix st)) true st.
+Definition flush_pinned (st : pstate) : pstate :=
+  process_pinned (length (prefix st)) true st.
 
 (* ---------------------------------------------------------------------- *)
 (* feed(data) *)
